@@ -13,15 +13,18 @@ use std::time::Duration;
 // Locks
 // ------------------------------------------------------------------------------------------
 
-pub struct RwLock<T: ?Sized>(pub parking_lot::RwLock<T>);
+/// `.0` is the real lock; `.1` counts writers that are blocked waiting for it.  parking_lot's
+/// RwLock is writer-preferring: a new reader blocks while a writer is parked, even if the lock is
+/// only read-locked (which is what makes a re-entrant `read()` a deadlock hazard).
+pub struct RwLock<T>(pub parking_lot::RwLock<T>, pub std::sync::atomic::AtomicUsize);
 
 impl<T> RwLock<T> {
     pub fn new(t: T) -> Self {
-        RwLock(parking_lot::RwLock::new(t))
+        RwLock(parking_lot::RwLock::new(t), std::sync::atomic::AtomicUsize::new(0))
     }
 }
 
-impl<T: ?Sized> RwLock<T> {
+impl<T> RwLock<T> {
     #[track_caller]
     pub fn read(&self) -> parking_lot::RwLockReadGuard<'_, T> {
         if !rt::active() {
@@ -29,11 +32,14 @@ impl<T: ?Sized> RwLock<T> {
         }
         rt::sched_point_throttled(rt::site_hash(std::panic::Location::caller()));
         loop {
-            if let Some(g) = self.0.try_read() {
-                return g;
+            if self.1.load(Ordering::SeqCst) == 0 || rt::in_atomic() {
+                if let Some(g) = self.0.try_read() {
+                    return g;
+                }
             }
             let l = &self.0;
-            rt::block("rwlock.read", &move || !l.is_locked_exclusive());
+            let w = &self.1;
+            rt::block("rwlock.read", &move || !l.is_locked_exclusive() && w.load(Ordering::SeqCst) == 0);
         }
     }
 
@@ -43,9 +49,17 @@ impl<T: ?Sized> RwLock<T> {
             return self.0.write();
         }
         rt::sched_point_throttled(rt::site_hash(std::panic::Location::caller()));
+        let mut waiting = false;
         loop {
             if let Some(g) = self.0.try_write() {
+                if waiting {
+                    self.1.fetch_sub(1, Ordering::SeqCst);
+                }
                 return g;
+            }
+            if !waiting {
+                waiting = true;
+                self.1.fetch_add(1, Ordering::SeqCst);
             }
             let l = &self.0;
             rt::block("rwlock.write", &move || !l.is_locked());
@@ -53,7 +67,7 @@ impl<T: ?Sized> RwLock<T> {
     }
 }
 
-impl<T: ?Sized + fmt::Debug> fmt::Debug for RwLock<T> {
+impl<T: fmt::Debug> fmt::Debug for RwLock<T> {
     fn fmt(&self, f: &mut fmt::Formatter<'_>) -> fmt::Result {
         self.0.fmt(f)
     }
